@@ -278,8 +278,10 @@ class AutoQKHyperModel(HyperModel):
     # patterns so that we can group everything together
 
     if found_pattern:
-      if name in self.groups and index in self.groups[name]:
-        return self.groups[name][index]
+      # a group is shared per pattern and per tensor role; the limit index
+      # alone cannot tell the activation from the recurrent activation.
+      if name in self.groups and field_name in self.groups[name]:
+        return self.groups[name][field_name]
 
       # not there, let's use a different name for
       # the head and field
@@ -318,9 +320,9 @@ class AutoQKHyperModel(HyperModel):
 
     if found_pattern:
       if name not in self.groups:
-        self.groups[name] = {index: (q_name, q_dict[q_name])}
+        self.groups[name] = {field_name: (q_name, q_dict[q_name])}
       else:
-        self.groups[name][index] = (q_name, q_dict[q_name])
+        self.groups[name][field_name] = (q_name, q_dict[q_name])
 
     return (q_name, q_dict[q_name])
 
